@@ -301,10 +301,11 @@ func (t *Type) asID(seeNamed, escapeReserved bool) string {
 		return t.ListInner.asID(true, false) + "List"
 	}
 	if t.Basic {
+		// Name() equals String() except for unsafe.Pointer, where String() is not an identifier.
 		if escapeReserved {
-			return "x" + t.BasicType.String()
+			return "x" + t.BasicType.Name()
 		}
-		return t.BasicType.String()
+		return t.BasicType.Name()
 	}
 	if t.Pointer {
 		return "p" + strings.Title(t.PointerInner.asID(true, false))
